@@ -7,11 +7,15 @@ Part A (this section): ordering.  For every input with distinct URNs
   * `C19_order_respects`         : every field comes after every in-set field it references
   * `C19_order_fails_iff_cyclic` : the call fails exactly when the in-set reference graph has a cycle
   * `C19_order_terminates`       : the model's fuel suffices (the queue is empty at the end; more fuel changes nothing)
+  * `C19_order_terminates_all`   : the same for every input, duplicate URNs included (decreasing measure)
   * `C19_order_error_nodes`      : the URNs named in the error are exactly the fields that were not emitted
 Part B: parser (see below).
 -/
 import ShpanVerif.Model.Order
+import ShpanVerif.Model.Parser
 import ShpanVerif.Proofs.OrderLemmas
+import ShpanVerif.Proofs.ParserLemmas
+import ShpanVerif.Proofs.ParserRoundtrip
 
 namespace ShpanVerif.Props.C19
 
@@ -90,6 +94,16 @@ theorem C19_order_terminates (fs : List (Field α)) (hd : Distinct fs) :
   refine ⟨(final_facts fs hd).2, fun extra => ?_⟩
   rw [loop_add]
   exact loop_of_queue_nil _ _ (final_facts fs hd).2
+
+/-- Fuel adequacy for EVERY input, duplicate URNs included: the model's run ends on an empty queue
+    (so `finalState` is the state at which the Go `for len(queue) > 0` loop exits), by the decreasing
+    measure `len(queue) + #{keys with positive in-degree}`. -/
+theorem C19_order_terminates_all (fs : List (Field α)) :
+    (finalState fs).queue = [] ∧
+    ∀ extra, loop (graphOf fs).dependents (fuelFor fs + extra) (initState fs) = finalState fs := by
+  refine ⟨finalState_queue_nil fs, fun extra => ?_⟩
+  rw [loop_add]
+  exact loop_of_queue_nil _ _ (finalState_queue_nil fs)
 
 theorem order_cons (f : Field α) (fs : List (Field α)) :
     order (f :: fs) =
@@ -227,6 +241,148 @@ theorem C19_order_error_nodes (fs : List (Field α)) (hd : Distinct fs) (e : Lis
     · rw [if_neg hl] at h
       cases h
 
+/-- The same three clauses for real field values (`GetReferencedUrns` followed by the ordering). -/
+theorem C19_orderExprs_spec (fs : List (α × FieldExpr α))
+    (hd : Distinct (fs.map (fun f => (⟨f.1, refsOf f.2⟩ : Field α)))) :
+    let fs' := fs.map (fun f => (⟨f.1, refsOf f.2⟩ : Field α))
+    (∀ res, orderExprs fs = .ok res →
+        res.Perm (fs.map (·.1)) ∧ ∀ u r, Dep fs' u r → idxOf r res < idxOf u res) ∧
+    ((∃ e, orderExprs fs = .error e) ↔ Cyclic fs') := by
+  intro fs'
+  refine ⟨fun res h => ⟨?_, C19_order_respects fs' hd res h⟩, C19_order_fails_iff_cyclic fs' hd⟩
+  have := C19_order_perm fs' hd res h
+  simpa [fs', urnsOf, Function.comp_def] using this
+
 end ordering
+
+/-! #### non-vacuity (ordering) -/
+
+/-- a diamond with a duplicate reference, a self reference and a reference outside the set -/
+def exFields : List (Field Nat) := [⟨0, [1, 2, 2]⟩, ⟨1, [3, 1]⟩, ⟨2, [3, 9]⟩, ⟨3, []⟩]
+example : Distinct exFields := by simp [Distinct, urnsOf, exFields]
+example : order exFields = .ok [3, 1, 2, 0] := by rfl
+example : Dep exFields 0 2 := ⟨⟨0, [1, 2, 2]⟩, by simp [exFields], rfl, by decide, by simp [exFields, urnsOf], by decide⟩
+/-- a cyclic input: the hypothesis side of `fails_iff_cyclic` is inhabited, and the call fails -/
+def exCyclic : List (Field Nat) := [⟨0, [1]⟩, ⟨1, [2]⟩, ⟨2, [0]⟩, ⟨3, [0]⟩, ⟨4, []⟩]
+example : Distinct exCyclic := by simp [Distinct, urnsOf, exCyclic]
+example : order exCyclic = .error [0, 1, 2, 3] := by rfl
+example : Cyclic exCyclic :=
+  ⟨0, .tail (.tail (.single ⟨⟨0, [1]⟩, by simp [exCyclic], rfl, by decide, by simp [exCyclic, urnsOf], by decide⟩)
+      ⟨⟨1, [2]⟩, by simp [exCyclic], rfl, by decide, by simp [exCyclic, urnsOf], by decide⟩)
+      ⟨⟨2, [0]⟩, by simp [exCyclic], rfl, by decide, by simp [exCyclic, urnsOf], by decide⟩⟩
+
+/-! ## Part B — the parser
+
+  * `C19_total`            : for every JSON value (any fuel, any zone oracle) every entry point returns an engine
+                             tree or an error — the modelled planning-time panic (`NewFixedAlignmentPeriod`) is unreachable
+  * `C19_duration_guard`   : every `durationInMillis` is rejected, or accepted with a positive nanosecond duration
+                             computed without int64 wrap-around (the D21 repair)
+  * `C19_drop_plan_total`  : the drop filter's planning step never panics (the D23 repair)
+  * `C19_roundtrip`        : `parse (serialize q) = ok (norm q)` for every valid datasource / report tree,
+                             at the document entry points (fuel = JSON depth + 1)
+  * `C19_roundtrip_normal` : `= ok q` when `q` contains no filtered datasource with an empty filter list
+  * `C19_equiv_of_eval`    : hence any observation of engines that is insensitive to `norm` agrees between the
+                             parsed and the directly constructed engine
+-/
+
+section parser
+
+open ShpanVerif.Model.Parser ShpanVerif.Proofs.Parser
+
+/-- No entry point of the parser panics, whatever the document, the fuel and the zone database. -/
+theorem C19_total (zoneOk : String → Bool) :
+    (∀ j, parseDatasourceDoc zoneOk j ≠ .panic) ∧ (∀ j, parseReportDoc zoneOk j ≠ .panic) ∧
+    (∀ n j, parseDS zoneOk n j ≠ .panic) ∧ (∀ n j, parseMDS zoneOk n j ≠ .panic) ∧
+    (∀ n j, parseRDS zoneOk n j ≠ .panic) ∧ (∀ n j, parseRMDS zoneOk n j ≠ .panic) ∧
+    (∀ n j, parseFilter zoneOk n j ≠ .panic) ∧ (∀ n j, parseRFilter zoneOk n j ≠ .panic) ∧
+    (∀ n j, parseQField n j ≠ .panic) ∧ (∀ n j, parseRField n j ≠ .panic) ∧
+    (∀ j, parsePeriod zoneOk j ≠ .panic) :=
+  ⟨fun j => (np_all zoneOk _).1 j, fun j => (np_all zoneOk _).2.2.1 j,
+   fun n j => (np_all zoneOk n).1 j, fun n j => (np_all zoneOk n).2.1 j,
+   fun n j => (np_all zoneOk n).2.2.1 j, fun n j => (np_all zoneOk n).2.2.2 j,
+   np_parseFilter zoneOk, np_parseRFilter zoneOk, np_parseQField, np_parseRField, np_parsePeriod zoneOk⟩
+
+/-- For every `durationInMillis` (any integer, in particular every int64): the custom period is rejected,
+    or it is accepted and then the duration `ms · 10^6` ns is positive, fits int64, and is what the wrapping
+    Go multiplication computes. -/
+theorem C19_duration_guard (zoneOk : String → Bool) (ms : Int) (zone : String) :
+    parseCustomPeriod zoneOk ms zone = .reject ∨
+      (parseCustomPeriod zoneOk ms zone = .ok (.custom ms zone) ∧ zoneOk zone = true ∧
+        0 < ms * nsPerMs ∧ ms * nsPerMs ≤ maxInt64 ∧ wrap64 (wrap64 ms * nsPerMs) = ms * nsPerMs) :=
+  parseCustomPeriod_spec zoneOk ms zone
+
+/-- Without the guard the constructor's panic is reachable: the D21 witness wraps to a negative duration. -/
+example : newFixedAlignmentPeriod (wrap64 (wrap64 9223372036855 * nsPerMs)) (.custom 9223372036855 "UTC") = .panic := by
+  rfl
+/-- … and the guard rejects it, while the largest representable duration is accepted. -/
+example : parseCustomPeriod (fun _ => true) 9223372036855 "UTC" = .reject := by rfl
+example : parseCustomPeriod (fun _ => true) 9223372036854 "UTC" = .ok (.custom 9223372036854 "UTC") := by rfl
+
+/-- The drop filter's planning step returns fields or an error for every field list and URN list. -/
+theorem C19_drop_plan_total (fields urns : List String) : planDrop fields urns ≠ .panic :=
+  np_planDrop fields urns
+
+/-- the D23 witness: one field, an existing and an unknown URN — an error, not a `makeslice` panic -/
+example : planDrop ["a"] ["a", "ghost"] = .reject := by rfl
+example : makeSliceCap ((["a"].length : Int) - (["a", "ghost"].length : Int)) = .panic := by rfl
+
+/-- Round trip at the document entry points. -/
+theorem C19_roundtrip (zoneOk : String → Bool) :
+    (∀ q : DS, ValidDS zoneOk q → parseDatasourceDoc zoneOk (serDS q) = .ok (normDS q)) ∧
+    (∀ q : RDS, ValidRDS zoneOk q → parseReportDoc zoneOk (serRDS q) = .ok (normRDS q)) :=
+  ⟨fun q hv => rt_ds zoneOk q _ hv (by have := dsDepth_le q; omega),
+   fun q hv => rt_rds zoneOk q _ hv (by have := rdsDepth_le q; omega)⟩
+
+/-- Any amount of fuel above the tree's depth gives the same answer. -/
+theorem C19_roundtrip_fuel (zoneOk : String → Bool) (q : DS) (hv : ValidDS zoneOk q) (n : Nat)
+    (hn : dsDepth q ≤ n) : parseDS zoneOk n (serDS q) = .ok (normDS q) := rt_ds zoneOk q n hv hn
+
+theorem C19_roundtrip_normal (zoneOk : String → Bool) (q : DS) (hv : ValidDS zoneOk q) (hn : normDS q = q) :
+    parseDatasourceDoc zoneOk (serDS q) = .ok q := by
+  rw [(C19_roundtrip zoneOk).1 q hv, hn]
+
+/-- Equivalence with direct construction, for any observation `eval` of typed trees that does not see the
+    difference between a datasource and the same datasource wrapped in an empty filter list. -/
+theorem C19_equiv_of_eval {Obs : Type} (zoneOk : String → Bool) (eval : DS → Obs)
+    (hnorm : ∀ q, eval (normDS q) = eval q) (q : DS) (hv : ValidDS zoneOk q) :
+    ∃ q', parseDatasourceDoc zoneOk (serDS q) = .ok q' ∧ eval q' = eval q :=
+  ⟨normDS q, (C19_roundtrip zoneOk).1 q hv, hnorm q⟩
+
+/-- The complete property (engine level): it needs the semantics of the engines (C10/C11), which this
+    file does not model; it is carried by `C19_roundtrip` + the Go-vs-Go differential of the
+    correspondence check.  `run` stands for `Execute` + collecting metadata and rows. -/
+def C19_full_statement (Engine Obs : Type) (construct : DS → Option Engine) (run : Engine → Obs)
+    (zoneOk : String → Bool) : Prop :=
+  ∀ q : DS, match parseDatasourceDoc zoneOk (serDS q), construct q with
+    | .ok q', some e => ∃ e', construct q' = some e' ∧ run e' = run e
+    | .reject, none => True
+    | _, _ => False
+
+/-! #### non-vacuity (parser) -/
+
+def exZone : String → Bool := fun z => z == "UTC"
+
+/-- a reduction over two filtered static sources, wrapped in a report and back -/
+def exQuery : DS :=
+  .fromReport
+    (.filtered
+      (.fromDatasource
+        (.reduction "sum" ⟨.custom 1800000 "UTC", some "linear"⟩
+          (.list [
+            .filtered (.static ⟨"a", "decimal", true, "kWh", []⟩ [⟨"2025-01-01T00:00:00Z", .num 15 1⟩])
+              [.delta true ⟨100, 0⟩, .fieldValue (.numeric "-" .ref (.constant "decimal" (.num 1 0) true "")) ⟨"b", "", []⟩],
+            .static ⟨"c", "decimal", true, "", [("site", .str "x")]⟩ []])
+          ⟨"s", "", []⟩ (some (.nil "decimal" ""))))
+      [.appendField (.reduce [] "max") ⟨"m", "", []⟩, .dropFields ["s"]])
+    "m"
+
+example : ValidDS exZone exQuery := by
+  simp [exQuery, exZone, ValidDS, ValidRDS, ValidMDS, ValidDSs, ValidAligner, ValidPeriod, ValidFilter, ValidRFilter,
+    ValidFieldMeta, ValidDec, counterRuleOk, fillModes, dataTypes]
+
+example : normDS exQuery = exQuery := by
+  simp [exQuery, normDS, normRDS, normMDS, normDSs]
+
+end parser
 
 end ShpanVerif.Props.C19
